@@ -211,6 +211,8 @@ theorem C16_example_supplies_inputs (schemas : SchemaTable) (cfg : Cfg) (op : Op
   unfold makeExample at h
   simp only at h
   split at h
+  · simp at h
+  split at h
   · rename_i stem decls sets m rs _ hd hs _ hrs
     simp at h
     subst h
@@ -246,6 +248,8 @@ theorem C16_example_targets_operation (schemas : SchemaTable) (sec : Bool) (cfg 
     e.stem = rf.stem ∧ e.method = rf.method.name := by
   unfold makeExample at h
   simp only at h
+  split at h
+  · simp at h
   split at h
   · rename_i stem decls sets m rs hstem _ _ hm _
     simp at h
